@@ -42,6 +42,9 @@ let () = register "arenamem" (fun args -> match args with
       let nbn = am_nat_of_int (int_of_string nb) in
       let d = "disc=" ^ am_disc (am_arun true nbn ops) in
       let dn = (match am_arun false nbn ops with AOk _ -> "nsdisc=ok" | _ -> "nsdisc=no") in
+      let pin = (match am_run_pinned nbn (am_n_of_dec cap) ans ops with
+                 | MBad BadDirtyZero -> "pinned=dirty_zero" | MOk _ -> "pinned=ok" | _ -> "pinned=other") in
+      let d = pin ^ " " ^ d in
       (match am_run nbn (am_n_of_dec cap) ans ops with
        | MOk m ->
            let (b, r) = am_abs m in
